@@ -185,7 +185,17 @@ func (fx *FnCtx) generate() {
 // uninterpreted function they mention is used by this function's VCs.
 func (fx *FnCtx) renderAxioms() {
 	env := fx.env
-	for _, ax := range env.specs.Axioms {
+	all := append([]AxiomDecl{}, env.specs.Axioms...)
+	for _, l := range env.specs.Lemmas {
+		if fx.spec != nil && fx.spec.Attrs["lemmas"] != "" {
+			continue // the function that proves the lemmas does not assume them
+		}
+		all = append(all, l)
+	}
+	for _, ax := range all {
+		if pt := fx.pkgTypes(); ax.Pkg != "" && (pt == nil || pt.Path() != ax.Pkg) {
+			continue
+		}
 		ok := true
 		walkCalls(ax.E, func(name string) {
 			if _, isUF := env.specs.UFs[name]; isUF && !env.declared["fun:uf_"+sanitize(name)] {
@@ -203,6 +213,22 @@ func (fx *FnCtx) renderAxioms() {
 		if err != nil {
 			fx.errors = append(fx.errors, fmt.Sprintf("axiom %s: %v", ax.Name, err))
 			continue
+		}
+		// entry heaps the axiom reads are declared (with their well-formedness facts) in front of it
+		for _, it := range p.items {
+			if it.Ob != nil {
+				continue
+			}
+			if strings.HasPrefix(it.Text, "(declare-const ") {
+				if env.preDecl == nil {
+					env.preDecl = map[string]bool{}
+				}
+				if env.preDecl[it.Text] {
+					continue
+				}
+				env.preDecl[it.Text] = true
+			}
+			env.decls = append(env.decls, it.Text)
 		}
 		env.decls = append(env.decls, fmt.Sprintf("; axiom %s\n(assert %s)", ax.Name, t))
 		env.assumptions["axiom:"+ax.Name] = true
@@ -251,9 +277,6 @@ func (fx *FnCtx) runAll() {
 	p := fx.entryPath()
 	if p != nil {
 		p.blockingInventory()
-		if fx.spec != nil && fx.spec.Attrs["lemmas"] != "" {
-			p.lemmaObligations()
-		}
 		p.cover("pre", "")
 		p.runBlock(fx.fn.Blocks[0], nil)
 	}
@@ -268,8 +291,6 @@ func (fx *FnCtx) runAll() {
 
 func (fx *FnCtx) basePath() *Path {
 	p := &Path{fx: fx, vals: map[ssa.Value]Val{}, emitted: map[string]bool{}, vars: map[string]Val{}}
-	p.declare("now_0", "Int")
-	p.assume("(>= now_0 0)")
 	p.st = State{epoch: "0", epochNow: "now_0", heaps: map[string]string{}, now: "now_0"}
 	p.entry = State{epoch: "0", epochNow: "now_0", heaps: map[string]string{}, now: "now_0"}
 	fn := fx.fn
@@ -290,6 +311,10 @@ func (fx *FnCtx) basePath() *Path {
 		p.assume(fmt.Sprintf("(and (not (= %s nil)) (= (ftag %s) (- 5)))", n, n))
 	}
 	p.constGlobalFacts()
+	if fx.spec != nil && fx.spec.Attrs["lemmas"] != "" {
+		// the function that carries the package's lemmas proves them at the start of each of its scripts
+		p.lemmaObligations()
+	}
 	// distinct free-variable cells
 	for i := 0; i < len(fn.FreeVars); i++ {
 		for j := i + 1; j < len(fn.FreeVars); j++ {
@@ -319,6 +344,9 @@ func (p *Path) specCtx() *SpecCtx {
 
 func (p *Path) assumeClause(c *SpecCtx, cl Clause, what string) {
 	t, err := c.EvalBool(cl.E)
+	if err != nil && strings.HasPrefix(cl.Label, "opt") {
+		return // optional clause (mentions spec functions of a package that is not loaded)
+	}
 	if err != nil {
 		p.specError(what, cl, err)
 		return
@@ -551,6 +579,18 @@ func (fx *FnCtx) loopPath(head *ssa.BasicBlock) *Path {
 	ls := fx.loopSpec(n)
 	c := p.specCtx()
 	c.loop = head
+	// a captured variable that is assigned once, before the loop, and only read afterwards still holds that value
+	for _, a := range fx.allocs {
+		st := writeOnceStore(a)
+		if st == nil || st.Block() == head || !st.Block().Dominates(head) || !a.Block().Dominates(head) {
+			continue
+		}
+		et := a.Type().Underlying().(*types.Pointer).Elem()
+		if !isScalar(et) {
+			continue
+		}
+		p.assume(fmt.Sprintf("(= (select %s %s) %s)", p.heapIn(&p.st, fx.env.memHeap(et)), p.val(a).T, p.val(st.Val).T))
+	}
 	p.loopStartState = p.st.clone()
 	if ls != nil {
 		for _, inv := range ls.Invs {
@@ -878,6 +918,31 @@ func (p *Path) checkPost(site string, vars map[string]Val, panicExit bool) {
 			lab = fmt.Sprint(k + 1)
 		}
 		p.oblige(kind+"."+lab, site, e.Src, t)
+		if !panicExit && strings.HasPrefix(e.Label, "trans") {
+			// transitivity: for an arbitrary earlier state S' related to the entry state, S' is related to the exit state
+			nw := fx.fresh("now")
+			p.declare(nw, "Int")
+			p.assume(fmt.Sprintf("(and (<= 0 %s) (<= %s now_0))", nw, nw))
+			pre := State{epoch: fx.fresh("tpre"), epochNow: nw, now: nw, heaps: map[string]string{}}
+			ce := *c
+			ce.st = &p.entry
+			ce.old = &pre
+			ce.atExit = false
+			t0, err := ce.EvalBool(e.E)
+			if err != nil {
+				p.specError("ensures", e, err)
+				continue
+			}
+			p.assume(t0)
+			cx := *c
+			cx.old = &pre
+			t1, err := cx.EvalBool(e.E)
+			if err != nil {
+				p.specError("ensures", e, err)
+				continue
+			}
+			p.oblige("transitive."+lab, site, "transitive: "+e.Src, t1)
+		}
 	}
 }
 
